@@ -311,6 +311,7 @@ def verify_case(unit_name, case, prop=None, tier="quick", opts=None):
                     # through, e.g. on a solver time-out): whatever was proved on it is vacuous but harmless; it is
                     # an error only if EVERY path of the case is like that (contradictory preconditions)
                     vacuous_paths.append(pi)
+                    res["canaries"] -= 1  # (not a canary that should have been refuted: the path does not exist)
                 else:
                     canary_passed.append("CANARY PASSED: %s/%s on path %d" % (unit_name, n, pi))
         # witness: a concrete input of this path, run natively; outcome and clauses must agree
